@@ -93,6 +93,7 @@ def run(ctx):
             path = os.path.join(d, "prog-%s-%s.scm" % ("crlf" if e == "\r\n" else "lf", "nl" if f else "nonl"))
             write_program(path, texts, e, f)
             out, errl, rc = run_binary(binp, path, cwd)
+            out = out.replace("\r\n", "\n") if e == "\r\n" else out
             # the message is not predicted by the machine: take it from the diagnostic and let the specification check the shape
             if forms and forms[-1]["k"] == "error" and errl:
                 m = re.match(r"^" + re.escape(path) + r"(:\d+:\d+ +| +)(.*)$", errl[0])
@@ -183,6 +184,9 @@ def run(ctx):
             path = os.path.join(d, "main-%s-%s.scm" % ("crlf" if e == "\r\n" else "lf", "nl" if f else "nonl"))
             write_program(path, texts, e, f, rng)
             out, errl, rc = run_binary(binp, path, cwd)
+            # a line break INSIDE a string literal of a CRLF file: the reference text has LF there; whether the string keeps
+            # the carriage return is left open (the statement compares with "the same text")
+            out = out.replace("\r\n", "\n") if e == "\r\n" else out
             events.append(((" ".join(texts), path), {"kind": "program", "forms": forms, "file": cps(path), "stdout": cps(out),
                                                      "stderr": [cps(x) for x in errl], "exit": rc}))
     bad = run_trace(ctx, events, "random")
@@ -200,7 +204,8 @@ def run(ctx):
     shutil.rmtree(base, ignore_errors=True)
     ctx.assumptions += ["ANSI colour sequences are stripped; exit status compared as zero / non-zero; the binary is run from a directory other than the program's",
                         "the reference for a random program is the same forms evaluated one by one through Interpreter::eval with standard output captured (fd 1 redirected, single-threaded)",
-                        "LINE:COL values are not compared here (C15)"]
+                        "LINE:COL values are not compared here (C15)",
+                        "for CRLF program files CR LF in the output is read as LF: the reference evaluates the LF text, and whether a string literal spanning lines keeps its carriage return is not decided by the statement"]
     return ctx.finish(rule="replay: every program of Programs!CliFamily (<= 4 forms: displays, newline, definition, use of a possibly undefined variable, fault after output) in LF/CRLF x final-newline variants through the binary, judged by Cli.tla against the machine's per-form outcomes; "
                            "missing, directory and non-UTF-8 files; validate: random displaying programs with an optional injected fault and a library next to the program, judged by CliTrace.tla against the library interface; non-trivial = distinct program")
 
